@@ -391,6 +391,16 @@ class CallMixin:
                 env.setdefault(n, vnone())
         return env
 
+    def havoc_cmodifies(self, st: State, c: Contract, env: Dict[str, Val], func) -> None:
+        for cond, fields in c.cmodifies:
+            g = self.spec_bool(st, cond, env, func)
+            if z3.is_false(g):
+                continue
+            before = {f: st.harr(f) for f in fields}
+            self.havoc_modifies(st, fields, env, func)
+            for f in fields:
+                st.heap[f] = z3.If(g, st.heap[f], before[f])
+
     def havoc_modifies(self, st: State, mods: List[str], env: Dict[str, Val], func) -> None:
         for m in mods:
             if m == "*":
@@ -439,8 +449,18 @@ class CallMixin:
         (self.used_assumed if c.assumed else self.used_contracts)[c.key or text] = c
         env = self.contract_env(st, c, fi, recv, args, kwargs, node)
         pre_state = st.fork()
+
+        def tracked(text: str) -> bool:
+            """clauses about ghost variables that the current proof does not declare are not tracked"""
+            if not c.ghost:
+                return True
+            names = {n.id for n in ast.walk(ast.parse(text.strip(), mode="eval")) if isinstance(n, ast.Name)}
+            return all(g in st.ghost for g in c.ghost if g in names)
+
         # preconditions are obligations of the caller
         for i, r in enumerate(c.requires):
+            if not tracked(r):
+                continue
             g = self.spec_bool(st, r, env, fi)
             self.oblige(f"pre[{c.key or text}#{i}]@{line}", st, g, line, "pre", r)
             st.assume(g)
@@ -455,6 +475,8 @@ class CallMixin:
                     continue
                 s2.assume(w)
             mods = rz.modifies if rz.modifies is not None else c.modifies
+            mods = [m for m in mods if not (m.split(".")[0] in c.ghost and m.split(".")[0] not in st.ghost)]
+            self.havoc_cmodifies(s2, c, env, fi)
             self.havoc_modifies(s2, mods, env, fi)
             cls = fresh("exccls", IntS)
             s2.assume(exc_is_sub(cls, rz.exc))
@@ -473,7 +495,8 @@ class CallMixin:
             outs.append(Out("raise", s2, rv))
         # normal outcome
         s1 = st
-        self.havoc_modifies(s1, c.modifies, env, fi)
+        self.havoc_cmodifies(s1, c, env, fi)
+        self.havoc_modifies(s1, [m for m in c.modifies if not (m.split(".")[0] in c.ghost and m.split(".")[0] not in st.ghost)], env, fi)
         rth = parse_hint(c.returns) if c.returns else (parse_hint(fi.node.returns) if fi is not None else None)
         if c.fresh_result:
             r = s1.new_ref()
@@ -489,7 +512,8 @@ class CallMixin:
         env1 = dict(env)
         env1["result"] = res
         for e in c.ensures:
-            s1.assume(self.spec_bool(s1, e, env1, fi, old=pre_state))
+            if tracked(e):
+                s1.assume(self.spec_bool(s1, e, env1, fi, old=pre_state))
         self.run_effects(s1, c.effects, env1, fi, pre_state)
         s1.events.append(dict(event, outcome=("ret", res)))
         outs.append(Out("val", s1, res))
@@ -583,6 +607,22 @@ class CallMixin:
         if fn == "contains":
             a, b = self.ev1(node.args[0], st), self.ev1(node.args[1], st)
             return vbool(self.contains(st, a, b, node))
+        if fn == "same_except":
+            # same_except("field" | "$list" | "$dict", obj...): for every object that existed at entry, other than the
+            # listed ones, the field (container content) has its entry value
+            fld = node.args[0].value
+            objs = [self.ev1(a, st) for a in node.args[1:]]
+            cls = st.func.cls.name if (st.func is not None and st.func.cls is not None) else None
+            fields = {"$list": ["$llen", "$litems"], "$dict": ["$dlen", "$ddom", "$dval"]}.get(fld, [front.mangle(fld, cls)])
+            o = st.old
+            rq = fresh("rq", IntS)
+            parts = []
+            for f in fields:
+                cur = st.harr(f)
+                old_arr = o.harr(f) if o is not None else st.heap0.get(f, cur)
+                guard = [rq >= 0, rq < st.alloc0] + [z3.Or(z3.Not(V.is_R(x.z)), rq != V.r(x.z)) for x in objs if x.z is not None]
+                parts.append(z3.ForAll([rq], z3.Implies(z3.And(guard), z3.Select(cur, rq) == z3.Select(old_arr, rq))))
+            return vbool(z3.And(parts))
         if fn == "unchanged":
             # unchanged("field") : the whole heap array of that field equals its entry value
             fld = node.args[0].value
